@@ -93,6 +93,7 @@ type Path struct {
 	markers   map[int]*Term
 	hashPre   map[string]string // hex hash -> preimage (symstr.go)
 	thShares  map[string]thShare // share public key hex -> threshold group (cryptox.go)
+	f2iMemo   map[interface{}]*Term
 	flMemo    map[*Term]*Term
 	fdivInfo  map[*Term][2]*Term // abstract float quotient -> (x, y) wide integer terms (fpcut.go)
 	sigs      map[string][2]string // ideal signatures made in this run: sig -> (public key hex, signed hash hex)
